@@ -378,7 +378,10 @@ def render_expr(rng, e, top=True, layout=False):
             pre = f"{mn}*{mx}"
         if layout and rng.random() < 0.2:
             pre = pre.replace("*", "0*", 1) if pre.startswith("*") else "0" + pre
-        return pre + render_expr(rng, e[3], False, layout)
+        inner = render_expr(rng, e[3], False, layout)
+        if e[3][0] == "rep":
+            inner = "(" + inner + ")"     # repetition = [repeat] element: a repetition is not an element
+        return pre + inner
     if k == "opt":
         return "[" + (ws() if layout else " ") + render_expr(rng, e[1], True, layout) + (ws() if layout else " ") + "]"
     raise ValueError(e)
